@@ -1,7 +1,10 @@
 # strict/functor/traits.rs: functor application by spiders.  Proved here, for EVERY functor that meets the
-# trait contract below: the result of define_map_arrow / spider_map_arrow is well-formed and has type
-# F(A) -> F(B), and none of the unwrap()s can fail (C05, C12 typing).  The semantic clause of C12 (result is
-# the substitution instance) is bounded.
+# trait contract below: the result of define_map_arrow / spider_map_arrow is the substitution instance (C12 headline,
+# clause C12.*-subst; lemmas in 53_subst.py), is well-formed and has type F(A) -> F(B), and none of the unwrap()s can
+# fail (C05, C12 typing).  The trait contract lets the implementor state its own preconditions (obj_pre, ops_pre), the
+# type of its operation map (ops_src, ops_tgt; `strict_typed` = F(sources) -> F(targets) is what define_map_arrow
+# requires) and its own postcondition (ops_post).  Identity is proved to meet the contract and its image to be
+# isomorphic to the argument; the optic (64_optic.py) is a second implementor.
 FT = 'src/strict/functor/traits.rs'
 FI = 'src/strict/functor/identity.rs'
 
@@ -26,6 +29,30 @@ pub open spec fn is_flat_image<O1, O2>(ty: Seq<O2>, a: Seq<O1>, obj: spec_fn(O1)
     &&& forall|p: int, j: int| 0 <= p < a.len() && 0 <= j < k[p] ==> ty[#[trigger] seg_at(k, p, j)] == obj(a[p])[j]
 }
 
+/// position m of a concatenation of blocks of sizes k: (block, offset)
+pub open spec fn seg_pos(k: Seq<usize>, m: int) -> (int, int) {
+    choose|p: int, j: int| 0 <= p < k.len() && 0 <= j < k[p] && m == #[trigger] seg_at(k, p, j)
+}
+/// THE flat image: the concatenation obj(a[0]) ++ obj(a[1]) ++ ...
+pub open spec fn flat<O1, O2>(a: Seq<O1>, obj: spec_fn(O1) -> Seq<O2>) -> Seq<O2> {
+    let k = flat_sizes(a, obj);
+    Seq::new(total(k) as nat, |m: int| obj(a[seg_pos(k, m).0])[seg_pos(k, m).1])
+}
+pub proof fn lemma_flat_is_flat<O1, O2>(a: Seq<O1>, obj: spec_fn(O1) -> Seq<O2>)
+    requires forall|p: int| 0 <= p < a.len() ==> obj(#[trigger] a[p]).len() <= usize::MAX
+    ensures is_flat_image(flat(a, obj), a, obj)
+{
+    let k = flat_sizes(a, obj); let t = flat(a, obj);
+    lemma_psum_mono(k, 0, k.len() as int);
+    assert forall|p: int, j: int| 0 <= p < a.len() && 0 <= j < k[p] implies t[#[trigger] seg_at(k, p, j)] == obj(a[p])[j] by {
+        lemma_seg_range(k, p, j);
+        let m = seg_at(k, p, j);
+        let (p2, j2) = seg_pos(k, m);
+        assert(0 <= p2 < k.len() && 0 <= j2 < k[p2] && m == seg_at(k, p2, j2));
+        lemma_seg_unique(k, p, j, p2, j2);
+    }
+}
+
 /// The contract of the trait Functor of /repo: the action on objects is a per-generator list, the action
 /// on a tensoring of operations returns a well-formed diagram of the corresponding type.
 pub trait Functor<O1: Clone, A1: Clone, O2, A2> {
@@ -39,17 +66,27 @@ pub trait Functor<O1: Clone, A1: Clone, O2, A2> {
     /// the functor's own description of its action on a tensoring of operations (what `r` may be for `ops`)
     spec fn ops_post(&self, ops: Operations<O1, A1>, r: OpenHypergraph<O2, A2>) -> bool;
 
+    /// the type of the image of a tensoring of operations.  For a functor proper it is F(sources) -> F(targets)
+    /// (`strict_typed` below, required by define_map_arrow); the forward and reverse halves of an optic carry residuals
+    /// in addition, which is why the type is the implementor's to state
+    spec fn ops_src(&self, ops: Operations<O1, A1>) -> Seq<O2>;
+    spec fn ops_tgt(&self, ops: Operations<O1, A1>) -> Seq<O2>;
+
+    /// implementor-specific preconditions of the two methods (beyond the common size conditions): callers must establish them
+    spec fn obj_pre(&self, a: Seq<O1>) -> bool;
+    spec fn ops_pre(&self, ops: Operations<O1, A1>) -> bool;
+
     fn map_object(&self, a: &SemifiniteFunction<O1>) -> (r: IndexedCoproduct<SemifiniteFunction<O2>>)
-        requires a@.len() < usize::MAX, total(flat_sizes(a@, |o: O1| self.obj(o))) < usize::MAX, lawful_clone::<O1>(),
+        requires a@.len() < usize::MAX, total(flat_sizes(a@, |o: O1| self.obj(o))) < usize::MAX, lawful_clone::<O1>(), self.obj_pre(a@),
         ensures r.wf(), r.sources.table@.len() == a@.len(),
             forall|i: int| 0 <= i < a@.len() ==> #[trigger] seg_is(r, i, self.obj(a@[i]));
 
     fn map_operations(&self, ops: Operations<O1, A1>) -> (r: OpenHypergraph<O2, A2>)
         requires ops.wf(), ops.a.values@.len() + ops.b.values@.len() < usize::MAX, ops.x@.len() < usize::MAX, small(self.ops_bound(ops)),
-            lawful_clone::<O1>(), lawful_clone::<A1>(),
+            lawful_clone::<O1>(), lawful_clone::<A1>(), self.ops_pre(ops),
         ensures r.wf(),
-            is_flat_image(r.src_type(), ops.a.values@, |o: O1| self.obj(o)),
-            is_flat_image(r.tgt_type(), ops.b.values@, |o: O1| self.obj(o)),
+            r.src_type() =~= self.ops_src(ops),
+            r.tgt_type() =~= self.ops_tgt(ops),
             oh_sizes_le(r, self.ops_bound(ops)),
             self.ops_post(ops, r);
 }
@@ -61,6 +98,13 @@ pub open spec fn oh_sizes_le<O, A>(r: OpenHypergraph<O, A>, b: nat) -> bool {
 }
 
 pub open spec fn small(n: nat) -> bool { n < 0x1000_0000 }
+pub open spec fn tiny(n: nat) -> bool { n < 0x100_0000 }
+
+/// the functor maps the tensoring `ops` to a diagram of type F(sources) -> F(targets)
+pub open spec fn strict_typed<O1: Clone, A1: Clone, O2, A2, F: Functor<O1, A1, O2, A2>>(functor: F, ops: Operations<O1, A1>) -> bool {
+    &&& is_flat_image(functor.ops_src(ops), ops.a.values@, |o: O1| functor.obj(o))
+    &&& is_flat_image(functor.ops_tgt(ops), ops.b.values@, |o: O1| functor.obj(o))
+}
 ''')
 
 raw(r'''
@@ -304,7 +348,8 @@ fn(FT, 'define_map_arrow', kind='free', status='P', props=['C12', 'C05'],
              # machine arithmetic: every size that occurs stays small (each F-image is bounded by `small`)
              # machine arithmetic, stated over what the functor really returns: the image of f's operations is small
              # (ops_bound is the functor's own size bound) and so are the F-images of f's node, interface and incidence lists
-             'forall|ops: Operations<O1, A1>| #[trigger] is_ops_of(*f, ops) ==> small(functor.ops_bound(ops))',
+             'forall|ops: Operations<O1, A1>| #[trigger] is_ops_of(*f, ops) ==> small(functor.ops_bound(ops)) && strict_typed(*functor, ops) && functor.ops_pre(ops)',
+             'functor.obj_pre(f.h.w@)',
              'dma_sizes(*f, |o: O1| functor.obj(o))'],
    ensures=[('C12.define_map_arrow-wf', 'r.wf()'),
             ('C12.define_map_arrow-type', '''is_flat_image(r.src_type(), f.src_type(), |o: O1| functor.obj(o)) && is_flat_image(r.tgt_type(), f.tgt_type(), |o: O1| functor.obj(o))'''),
@@ -373,7 +418,8 @@ fn(FI, 'map_operations', trait='Functor', self_ty='Identity', status='P', props=
    proofs=[('start', '''assert forall|s: Seq<usize>, i: int| (forall|k: int| 0 <= k < s.len() ==> s[k] == 1) && 0 <= i <= s.len() implies #[trigger] psum(s, i) == i by { lemma_psum_const(s, 1usize, i); }''')],
    ensures=[('C12.identity-map_operations', '''r.wf() && is_flat_image(r.src_type(), ops.a.values@, |o: O| seq![o]) && is_flat_image(r.tgt_type(), ops.b.values@, |o: O| seq![o])
                 && oh_sizes_le(r, ops.a.values@.len() + ops.b.values@.len() + ops.x@.len())'''),
-            ('C12.identity-map_operations-exact', 'is_tensor_ops(r, ops)')])
+            ('C12.identity-map_operations-exact', 'is_tensor_ops(r, ops)'),
+            ('C12.identity-map_operations-typed', 'r.src_type() =~= ops.a.values@ && r.tgt_type() =~= ops.b.values@')])
 
 raw(r'''
 // trait impl of /repo: `impl Functor<K, O, A, O, A> for Identity`; the method bodies are the free functions above (glue: trusted)
@@ -381,10 +427,24 @@ impl<O: Clone + PartialEq, A: Clone> Functor<O, A, O, A> for Identity {
     open spec fn obj(&self, o: O) -> Seq<O> { seq![o] }
     open spec fn ops_bound(&self, ops: Operations<O, A>) -> nat { ops.a.values@.len() + ops.b.values@.len() + ops.x@.len() }
     open spec fn ops_post(&self, ops: Operations<O, A>, r: OpenHypergraph<O, A>) -> bool { is_tensor_ops(r, ops) }
+    open spec fn ops_src(&self, ops: Operations<O, A>) -> Seq<O> { ops.a.values@ }
+    open spec fn ops_tgt(&self, ops: Operations<O, A>) -> Seq<O> { ops.b.values@ }
+    open spec fn obj_pre(&self, a: Seq<O>) -> bool { true }
+    open spec fn ops_pre(&self, ops: Operations<O, A>) -> bool { true }
     #[verifier::external_body]
     fn map_object(&self, a: &SemifiniteFunction<O>) -> (r: IndexedCoproduct<SemifiniteFunction<O>>) { identity_map_object(self, a) }
     #[verifier::external_body]
     fn map_operations(&self, ops: Operations<O, A>) -> (r: OpenHypergraph<O, A>) { identity_map_operations(self, ops) }
+}
+
+/// a list is its own image under the object map o |-> [o]
+pub proof fn lemma_flat_identity_rev<O>(a: Seq<O>)
+    ensures is_flat_image(a, a, |o: O| seq![o])
+{
+    let obj1 = |o: O| seq![o];
+    let k = flat_sizes(a, obj1);
+    assert forall|i: int| 0 <= i <= a.len() implies #[trigger] psum(k, i) == i by { lemma_psum_const(k, 1usize, i); }
+    assert forall|p: int, j: int| 0 <= p < a.len() && 0 <= j < k[p] implies a[#[trigger] seg_at(k, p, j)] == obj1(a[p])[j] by { }
 }
 
 /// an image under the object map o |-> [o] is the list itself
@@ -500,6 +560,9 @@ fn(FI, 'map_arrow', trait='Functor', self_ty='Identity', status='P', props=['C12
             assert(obj =~= (|o: O| seq![o]));
             assert forall|ty: Seq<O>, a: Seq<O>| #[trigger] is_flat_image(ty, a, obj) implies ty =~= a by { lemma_flat_identity(ty, a); }
             assert(dma_sizes(*f, obj));
+            assert forall|ops: Operations<O, A>| #[trigger] is_ops_of(*f, ops) implies strict_typed(*this, ops) by {
+                lemma_flat_identity_rev(ops.a.values@); lemma_flat_identity_rev(ops.b.values@);
+            }
             assert forall|fw: IndexedCoproduct<SemifiniteFunction<O>>, fx: OpenHypergraph<O, A>, ops: Operations<O, A>, rr: OpenHypergraph<O, A>|
                     is_object_image(fw, f.h.w@, obj) && #[trigger] is_ops_of(*f, ops) && is_tensor_ops(fx, ops) && #[trigger] is_substitution(rr, *f, fw, fx)
                     implies exists|phi: Seq<usize>| #[trigger] node_iso(rr, *f, phi) by {
